@@ -52,8 +52,8 @@ def fmt(v):
     return " ".join("%.17g" % x for x in v)
 
 
-def general_xml(name, target, gear, a, lengthrange):
-    gname, gtype, gprm = GAINS[a["g"]]
+def general_xml(name, target, gear, a, lengthrange, gains=None):
+    gname, gtype, gprm = (gains or GAINS)[a["g"]]
     bname, btype, bprm = BIASES[a["b"]]
     dname, dtype, dprm = DYNS[a["dy"]]
     s = '    <general name="%s" %s gear="%s" dyntype="%s" gaintype="%s" biastype="%s"' % (
@@ -78,29 +78,31 @@ ROOTS = ("hinge", "slide", "ball", "free")
 SW = '    <site name="sw" pos="0.1 0.25 0.3" quat="1 0.3 0.2 0.1"/>\n'
 
 
-def base_xml(root, tclamp, sections, contact=False, option_extra="", ballclamp=False):
+def base_xml(root, tclamp, sections, contact=False, option_extra="", ballclamp=False, ranges=False, tendon_range="-7 5",
+             joint_range="-6 9"):
     """world -> b0 (root joint j0) -> b1 (hinge j1); sites sw (world), s0, s1; tendons tf (fixed), ts (spatial)."""
-    jclamp = ' actuatorfrcrange="-6 9" actuatorgravcomp="true"' if tclamp else ""
+    jclamp = ' actuatorfrcrange="%s" actuatorgravcomp="true"' % joint_range if tclamp else ""
+    jrange = ' range="-1.1 0.7"' if ranges else ""
     if root == "free":
         j0 = '<joint name="j0" type="free"%s/>' % (' actuatorfrcrange="-6 9"' if ballclamp else "")
     elif root == "ball":
         j0 = '<joint name="j0" type="ball" pos="0.05 -0.03 0.07"%s/>' % (' actuatorfrcrange="-6 9"' if ballclamp else "")
     else:
-        j0 = '<joint name="j0" type="%s" axis="%s" pos="0.05 -0.03 0.07"%s/>' % (root, A.AXES[2], jclamp)
+        j0 = '<joint name="j0" type="%s" axis="%s" pos="0.05 -0.03 0.07"%s%s/>' % (root, A.AXES[2], jclamp, jrange)
     gattr = 'contype="1" conaffinity="1" condim="3" margin="0.02" gap="0.01"' if contact else 'contype="0" conaffinity="0"'
     grav = ' gravcomp="0.7"' if tclamp else ""
     body = SW
     if contact:
         body += '    <geom name="floor" type="plane" size="2 2 0.1" contype="1" conaffinity="1" condim="3"/>\n'
-    body += ('    <body name="b0" pos="0.2 0.1 0.3"%s>\n      %s\n'
+    body += ('    <body name="b0" pos="0.2 0.1 %s"%s>\n      %s\n'
              '      <geom name="g0" type="box" size="0.1 0.08 0.05" %s/>\n'
              '      <site name="s0" pos="0.02 -0.04 0.06" quat="0.7 -0.1 0.5 0.3"/>\n'
              '      <body name="b1" pos="0.15 -0.2 0.1" quat="0.8 0.2 -0.4 0.4"%s>\n'
              '        <joint name="j1" type="hinge" axis="0 0 1" pos="0.01 0.02 -0.03"%s/>\n'
              '        <geom name="g1" type="capsule" size="0.04 0.1" pos="0.03 0.02 -0.05" quat="0.9 0.1 0.3 -0.2" %s/>\n'
              '        <site name="s1" pos="0.12 -0.14 0.16" quat="0.6 0.5 -0.3 0.2"/>\n'
-             '      </body>\n    </body>\n' % (grav, j0, gattr, grav, jclamp, gattr))
-    tclampattr = ' actuatorfrcrange="-7 5"' if tclamp else ""
+             '      </body>\n    </body>\n' % ("0.045" if contact else "0.3", grav, j0, gattr, grav, jclamp, gattr))
+    tclampattr = (' actuatorfrclimited="true" actuatorfrcrange="%s"' % tendon_range if tclamp else "") + (' range="-0.9 1.3"' if ranges else "")
     if root in ("hinge", "slide"):
         fixed = '<joint joint="j0" coef="1.3"/><joint joint="j1" coef="-0.7"/>'
     else:
@@ -150,7 +152,7 @@ def quats():
     return [np.array(q) for q in A.QUATS]
 
 
-def state_lattice(root, kind, thorough):
+def state_lattice(root, kind, thorough, extreme=None):
     """qpos vectors (root joint alphabet x child hinge alphabet), simplest first."""
     out = []
     hs = [0.0, 0.37, -1.3]
@@ -160,16 +162,23 @@ def state_lattice(root, kind, thorough):
         rs = [list(q) for q in A.QUATS] + [[0.6, -0.5, 0.1, 0.6164414002968976]]
     else:
         if kind == "body":
-            # heights: penetrating, active margin, in gap, out of reach; flat and tilted
+            # contacts are detected below margin+gap = 0.03, active below margin = 0.02 (box bottom at z-0.05):
+            # penetrating, active margin, in gap, out of reach; tilted: some corners active and others in the gap
             rs = []
-            for z in (0.045, 0.055, 0.065, 0.2):
+            for z in (0.045, 0.06, 0.075, 0.2):
                 rs.append([0.2, 0.1, z, 1, 0, 0, 0])
-            c, s = math.cos(0.15), math.sin(0.15)
-            rs.append([0.2, 0.1, 0.06, c, s, 0, 0])
-            rs.append([0.2, 0.1, 0.07, math.cos(0.1), 0.0, math.sin(0.1), 0])
+            c, s = math.cos(0.075), math.sin(0.075)
+            rs.append([0.2, 0.1, 0.066, c, s, 0, 0])
+            rs.append([0.2, 0.1, 0.07, math.cos(0.05), 0.0, math.sin(0.05), 0])
         else:
             rs = [[0.2, 0.1, 0.3] + list(A.QUATS[0]), [0.5, -0.1, 0.8] + list(A.QUATS[2]),
                   [0.1, 0.3, 0.2, 0.6, -0.5, 0.1, 0.6164414002968976]]
+    if extreme is not None and root == "ball":
+        # rotations by +-0.97 pi about the (ball-joint) gear axis: lengths next to the wrap of the circle
+        ax = np.array(extreme, float) / np.linalg.norm(extreme)
+        for sgn in (1.0, -1.0):
+            ang = 0.97 * math.pi
+            rs.append([math.cos(ang / 2)] + list(sgn * math.sin(ang / 2) * ax))
     n = 0
     for i, r in enumerate(rs):
         for j, h in enumerate(hs):
